@@ -459,6 +459,7 @@ def _by_annotation(ann, annobj, rng):
 # seconds per call on models with more than one compartment: called on the plain start model only
 SLOW_FUNCTIONS = {"has_linear_odes_with_real_eigenvalues", "calculate_pk_parameters_statistics", "solve_ode_system",
                   "calculate_individual_parameter_statistics"}
+MODEL_PARAM_NAMES = ("model", "dataset_or_model")
 SKIP_FUNCTIONS = {
     # need artefacts of an estimation run (simulation tables, files) that the generator cannot produce
     "plot_vpc": "needs a simulation table",
@@ -468,8 +469,8 @@ SKIP_FUNCTIONS = {
 def build_args(fn, f, model, rng):
     sig = inspect.signature(f)
     params = list(sig.parameters.values())
-    if not params or params[0].name != "model":
-        raise Uncallable("first parameter is not `model`")
+    if not params or params[0].name not in MODEL_PARAM_NAMES:
+        raise Uncallable("first parameter is not a model")
     if fn in SKIP_FUNCTIONS:
         raise Uncallable(SKIP_FUNCTIONS[fn])
     pools = _pools(model)
@@ -773,7 +774,7 @@ def run_call(case, drv):
         return {"tags": [f"not-a-function:{fn}"], "nontrivial": False}
     rng = random.Random(case["seed"])
     ps0 = list(inspect.signature(f).parameters.values())
-    if not ps0 or ps0[0].name != "model" or fn in SKIP_FUNCTIONS:
+    if not ps0 or ps0[0].name not in MODEL_PARAM_NAMES or fn in SKIP_FUNCTIONS:
         return {"tags": [f"uncallable:{fn}", "uncallable"], "nontrivial": False}
     model = _base_model(case["recipe"])
     try:
@@ -790,6 +791,8 @@ def run_call(case, drv):
             with warnings.catch_warnings(), contextlib.redirect_stdout(io.StringIO()):
                 warnings.simplefilter("ignore")
                 r = f(model, **kw)
+                if inspect.isgenerator(r):      # omit_data / resample_data are lazy: run them up to the first item
+                    r = next(r, None)
             results.append(r)
             outcome = "returns"
         except Exception as e:
@@ -996,7 +999,7 @@ def run_case(case, drv):
     t0 = time.time()
     res = run_call(case, drv) if case["kind"] == "call" else run_obj(case, drv)
     dt = time.time() - t0
-    if dt > 3:
+    if dt > 3 and os.environ.get("VERIF_DEBUG"):   # timing is not part of the (deterministic) evidence
         res.setdefault("tags", []).append(f"slow>3s:{case.get('fn', case.get('what'))}:recipe{case.get('recipe', '')}:{int(dt)}s")
     return res
 
